@@ -24,14 +24,20 @@
       abstracted to items here, plus FindModuleByNamespace lookups; it must agree with the implementation (command
       c18hist, harness/go/c18.go) on the verdict of every load, on the keys of ms.Modules / ms.SubModules and the item
       each denotes after every load, on the import/include bindings after every Process and on every namespace answer.
+  command
+      `goyang FILE...` (built from the checked tree) with a rejected file among its arguments, lying in a directory
+      that also holds modules the good files import or include: exit status and standard output must be those of the
+      run without the rejected argument, its messages those plus the report about the rejected file.
   oracle
       the extracted specification (coq/Spec/C18.v: spec_load, spec_ns) evaluated next to it: the implementation's
       verdicts, its set of loaded items and its namespace answers must be the specification's.
 """
 import json
+import os
 import random
 import re
 import shutil
+import subprocess
 import tempfile
 
 import lib
@@ -870,6 +876,126 @@ def with_ns_ops(rnd, c):
     return out
 
 
+# ------------------------------------------------------------------------------------------------ the command
+# `goyang FILE...` reports a file it cannot load and carries on (yang.go): the rest of the run -- exit status, standard
+# output, the other messages -- must be that of the same command without the rejected argument.
+GOYANG = os.path.join(lib.WORK, "goyang-c18")
+
+
+def build_cli():
+    os.makedirs(lib.WORK, exist_ok=True)
+    rc, out = lib.sh(["go", "build", "-o", GOYANG, "."], cwd=lib.REPO, env=lib.GOENV, timeout=300)
+    return rc == 0, out
+
+
+def cli_run(root, fmt, args, flags=()):
+    p = subprocess.run([GOYANG] + list(flags) + ["--format", fmt] + list(args), cwd=root, stdout=subprocess.PIPE,
+                       stderr=subprocess.PIPE, timeout=60)
+    return dict(rc=p.returncode, stdout=p.stdout.decode("utf8", "replace"),
+                stderr=sorted(l for l in p.stderr.decode("utf8", "replace").split("\n") if l))
+
+
+def cli_layouts(rnd, n_random):
+    """(files {relative path: text}, good arguments, rejected arguments, flags): the rejected files lie in directories
+    that also hold modules the good files import or include"""
+    D = {it["mod"]: it["src"] for it in fam_disk()}
+    I = {it["mod"]: it["src"] for it in fam_identities()}
+    bads = bad_items("c")
+    broken = [("syntax", D["dz"].rstrip()[:-1]), ("unknown-statement", bads[0]["src"]), ("second-type", bads[1]["src"]),
+              ("not-a-module", bads[2]["src"]), ("typedef", bads[3]["src"]), ("keyword", bads[5]["src"]),
+              ("partial", D["dn"] + "\nfrobnicate x;\n"), ("duplicate", D["dm"]), ("empty-braces", "module {}\n")]
+    out = []
+    for kind, text in broken:
+        for order in (0, 1):
+            # the import of good/dm.yang (dz) can be satisfied from other/ only, where the rejected file lies
+            files = {"good/dm.yang": D["dm"], "other/dz.yang": D["dz"], "other/broken.yang": text}
+            out.append((files, ["good/dm.yang"], ["other/broken.yang"], [], order, "import-only-there:" + kind))
+        # an include found only beside the rejected file
+        out.append(({"good/dp.yang": D["dp"], "other/ds.yang": D["ds"], "other/broken.yang": text},
+                    ["good/dp.yang"], ["other/broken.yang"], [], 0, "include-only-there:" + kind))
+        # controls: the module is also beside the good file / the directory is that of another, good, argument /
+        # it is on --path: resolved with and without the rejected argument
+        out.append(({"good/dm.yang": D["dm"], "good/dz.yang": D["dz"], "other/dz.yang": D["dz"], "other/broken.yang": text},
+                    ["good/dm.yang"], ["other/broken.yang"], [], 1, "also-beside-good:" + kind))
+        out.append(({"good/dm.yang": D["dm"], "other/dz.yang": D["dz"], "other/dn.yang": D["dn"], "other/dy.yang": D["dy"],
+                     "other/broken.yang": text},
+                    ["good/dm.yang", "other/dn.yang"], ["other/broken.yang"], [], 0, "dir-of-good-argument:" + kind))
+        out.append(({"good/dm.yang": D["dm"], "other/dz.yang": D["dz"], "other/broken.yang": text},
+                    ["good/dm.yang"], ["other/broken.yang"], ["--path", "other"], 0, "on-path:" + kind))
+        # two rejected files in two directories, identities through imports
+        out.append(({"good/i2.yang": I["i2"], "a/ib.yang": I["ib"], "b/i1.yang": I["i1"], "a/broken.yang": text,
+                     "b/broken2.yang": broken[0][1]},
+                    ["good/i2.yang"], ["a/broken.yang", "b/broken2.yang"], [], 1, "two-directories:" + kind))
+    # a duplicate is the copy of a good argument that comes after it
+    fixed = []
+    for files, good, rej, flags, order, label in out:
+        if label.endswith(":duplicate"):
+            files = dict(files, **{rej[0]: files[good[0]]})
+            order = 1
+        fixed.append((files, good, rej, flags, order, label))
+    out = fixed
+    pool = dict(D, **I)
+    names = sorted(pool)
+    for _ in range(n_random):
+        files, good, rej = {}, [], []
+        dirs = ["good", "other", "third"]
+        for m in rnd.sample(names, rnd.randint(2, 6)):
+            d = rnd.choice(dirs)
+            files["%s/%s.yang" % (d, m)] = pool[m]
+            if rnd.random() < 0.5:
+                good.append("%s/%s.yang" % (d, m))
+        if not good:
+            good.append(sorted(files)[0])
+        for k in range(rnd.randint(1, 2)):
+            d = rnd.choice(dirs)
+            f = "%s/broken%d.yang" % (d, k)
+            files[f] = rnd.choice(broken[:-2] + broken[-1:])[1]      # (no duplicates here: which copy loses depends on the order)
+            rej.append(f)
+        flags = ["--path", rnd.choice(dirs)] if rnd.random() < 0.2 else []
+        out.append((files, good, rej, flags, rnd.randrange(3), "random"))
+    return out
+
+
+def cli_leg(res, rnd, n_random, stats, max_report=3):
+    ok, out = build_cli()
+    if not ok:
+        res.violation("the goyang command does not build: " + out[-400:], dict(kind="cli-build", log=out[-2000:]), no_input=True)
+        return
+    reported = 0
+    for files, good, rej, flags, order, label in cli_layouts(rnd, n_random):
+        root = tempfile.mkdtemp(prefix="c18cli")
+        try:
+            for f, text in files.items():
+                os.makedirs(os.path.join(root, os.path.dirname(f)), exist_ok=True)
+                with open(os.path.join(root, f), "w") as fh:
+                    fh.write(text)
+            args = {0: rej + good, 1: good + rej, 2: good[:1] + rej + good[1:]}[order]
+            for fmt in ("tree", "types"):
+                stats["cli_runs"] += 1
+                w = cli_run(root, fmt, args, flags)
+                wo = cli_run(root, fmt, good, flags)
+                rest = list(w["stderr"])
+                missing = []
+                for l in wo["stderr"]:
+                    if l in rest:
+                        rest.remove(l)
+                    else:
+                        missing.append(l)
+                stats["cli_resolved" if wo["rc"] == 0 else "cli_failing"] += 1
+                if w["rc"] != wo["rc"] or w["stdout"] != wo["stdout"] or missing or not rest:
+                    stats["differences"] += 1
+                    if reported < max_report:
+                        reported += 1
+                        what = ("goyang --format %s %s %s [%s]: exit %d, %d bytes of output, messages %s; without the rejected "
+                                "argument(s) %s: exit %d, %d bytes, messages %s" % (
+                                    fmt, " ".join(flags), " ".join(args), label, w["rc"], len(w["stdout"]), w["stderr"][:4],
+                                    rej, wo["rc"], len(wo["stdout"]), wo["stderr"][:4]))
+                        res.violation(what, dict(kind="cli", files=files, args=args, good=good, rejected=rej, flags=flags,
+                                                 format=fmt, with_rejected=w, without=wo))
+        finally:
+            shutil.rmtree(root, ignore_errors=True)
+
+
 def gen_cases(rnd, n, which=None):
     cases = []
     for _ in range(n):
@@ -884,6 +1010,7 @@ def gen_cases(rnd, n, which=None):
 def new_stats():
     return dict(histories=0, nontrivial=0, crashed=0, loads_ok=0, loads_failed=0, process_runs=0, batch_runs=0,
                 runs_with_errors=0, runs_clean=0, differences=0, map_order_dependent=0, twice_pairs=0,
+                cli_runs=0, cli_resolved=0, cli_failing=0,
                 corr_cases=0, corr_ops=0, corr_mismatch=0, corr_d43_shaped_loads=0, corr_binds_compared=0, corr_ns=0)
 
 
@@ -904,6 +1031,7 @@ def run(res, tier, seed, proof):
         chunk = cases[i:i + CH]
         metamorphic(res, chunk, stats)
         correspondence(res, chunk, stats)
+    cli_leg(res, rnd, 60 if tier == "quick" else 1500, stats)
     sample = cases[len(corpus) + 1]
     cov = dict(
         evaluations=stats["process_runs"] + stats["corr_ops"],
@@ -942,8 +1070,25 @@ def run(res, tier, seed, proof):
 
 
 def replay(rep, res):
-    c = Case.of_replay(rep)
     kind = rep.get("kind", "metamorphic")
+    if kind == "cli":
+        ok, out = build_cli()
+        root = tempfile.mkdtemp(prefix="c18cli")
+        try:
+            for f, text in rep["files"].items():
+                os.makedirs(os.path.join(root, os.path.dirname(f)), exist_ok=True)
+                with open(os.path.join(root, f), "w") as fh:
+                    fh.write(text)
+            w = cli_run(root, rep["format"], rep["args"], rep["flags"])
+            wo = cli_run(root, rep["format"], rep["good"], rep["flags"])
+        finally:
+            shutil.rmtree(root, ignore_errors=True)
+        print("goyang", rep["flags"], "--format", rep["format"], rep["args"])
+        print("  with the rejected argument(s):", w["rc"], w["stderr"], len(w["stdout"]))
+        print("  without                      :", wo["rc"], wo["stderr"], len(wo["stdout"]))
+        same = w["rc"] == wo["rc"] and w["stdout"] == wo["stdout"] and all(l in w["stderr"] for l in wo["stderr"])
+        return 0 if same else 1
+    c = Case.of_replay(rep)
     if kind.startswith("correspondence"):
         st = new_stats()
         correspondence(res, [c], st)
